@@ -243,26 +243,77 @@ Theorem C12_fixed_informers_match_owners :
 Proof. exact Cache_fixed_informers_match_owners. Qed.
 Print Assumptions C12_fixed_informers_match_owners.
 
+(** ** Reads through the cache (Cache.Get/List over CacheReader; the reader's scope is the one the API
+    declares for the kind - RESTMapper, informer_map.go:164-175 - never derived from a sample object) *)
+
+(** A Get of a kind some owner references returns the object the informer holds under the
+    scope-normalised key iff there is one - after ANY operation sequence, i.e. independent of which owner
+    watched the kind first, with which sample object, and of what failed before. *)
+Theorem C12_read_watched_returns_store :
+  forall fixed handlers ops scope store g ns n,
+    let s := runf fixed (init handlers) ops in
+    owned s g ->
+    let k := store_key scope g ns n in
+    (In k (store g) -> cache_get scope store s g ns n = Some (Some k)) /\
+    (~ In k (store g) -> cache_get scope store s g ns n = Some None).
+Proof. exact read_watched_returns_store. Qed.
+Print Assumptions C12_read_watched_returns_store.
+
+Theorem C12_read_cluster_scoped_ignores_namespace :
+  forall scope store s g ns ns' n,
+    scope g = false -> cache_get scope store s g ns n = cache_get scope store s g ns' n.
+Proof. exact read_cluster_scoped_ignores_namespace. Qed.
+Print Assumptions C12_read_cluster_scoped_ignores_namespace.
+
+Theorem C12_read_namespaced_by_namespace :
+  forall fixed handlers ops scope store g ns n,
+    let s := runf fixed (init handlers) ops in
+    owned s g -> scope g = true ->
+    cache_get scope store s g ns n = Some (if existsb (key_eqb (ns, n)) (store g) then Some (ns, n) else None).
+Proof. exact read_namespaced_by_namespace. Qed.
+Print Assumptions C12_read_namespaced_by_namespace.
+
+Theorem C12_list_watched_returns_store :
+  forall fixed handlers ops store g ns,
+    let s := runf fixed (init handlers) ops in
+    owned s g ->
+    exists l, cache_list store s g ns = Some l /\
+              forall k, In k l <-> In k (store g) /\ (ns = 0 \/ fst k = ns).
+Proof. exact list_watched_returns_store. Qed.
+Print Assumptions C12_list_watched_returns_store.
+
 (** The checks applied to the real InformerMap's observable behaviour (open WATCH streams per kind, event
-    delivery to the handlers) accept what the model of the current cache.go predicts. *)
+    delivery to the handlers, results of Get/List through the cache) accept what the model of the current
+    cache.go predicts, whatever reads are made at every step. *)
 Theorem C12_monitor_real_sound_fixed :
-  forall handlers kinds ops,
+  forall handlers kinds scope store gets lists ops,
     no_delete_failures ops = true ->
-    let steps := real_steps_of true kinds (init handlers) ops in
+    Forall (fun q => In (fst (fst q)) kinds) gets -> Forall (fun q => In (fst q) kinds) lists ->
+    let steps := real_steps_of true kinds scope store gets lists (init handlers) ops in
     forallb (fun p => real_streams_ok kinds (snd p)) steps = true /\
-    forallb (fun p => real_delivered_ok handlers kinds (snd p)) steps = true.
+    forallb (fun p => real_delivered_ok handlers kinds (snd p)) steps = true /\
+    forallb (fun p => real_reads_ok scope store (snd p)) steps = true.
 Proof. exact monitor_real_sound_fixed. Qed.
 Print Assumptions C12_monitor_real_sound_fixed.
 
-(** ... and reject an informer that survives the roll-back of its failed start. *)
+(** ... and reject an informer that survives the roll-back of its failed start, and a Get of a
+    cluster-scoped kind that misses the held object because the caller's namespace was not blanked. *)
 Example C12_judge_real_rejects_leak :
-  judge_real ([0; 1], [0; 1],
-    [(Watch 0 0 informer_sync_fails, RObs ErrInformerGet [(0, None); (1, None)] [(0, 1); (1, 0)] [(0, []); (1, [])]);
-     (Watch 0 0 ok, RObs ErrNone [(0, Some [0]); (1, None)] [(0, 2); (1, 0)] [(0, [0; 1]); (1, [])]);
-     (Free 0 ok [], RObs ErrNone [(0, None); (1, None)] [(0, 1); (1, 0)] [(0, []); (1, [])])],
-    [(0, 2); (1, 0)]) = (false, false, false, true, false).
+  judge_real ([0; 1], [0; 1], [], [],
+    [(Watch 0 0 informer_sync_fails, RObs ErrInformerGet [(0, None); (1, None)] [(0, 1); (1, 0)] [(0, []); (1, [])] [] []);
+     (Watch 0 0 ok, RObs ErrNone [(0, Some [0]); (1, None)] [(0, 2); (1, 0)] [(0, [0; 1]); (1, [])] [] []);
+     (Free 0 ok [], RObs ErrNone [(0, None); (1, None)] [(0, 1); (1, 0)] [(0, []); (1, [])] [] [])],
+    [(0, 2); (1, 0)]) = (false, false, false, true, false, true).
 Proof. exact judge_real_rejects_leak. Qed.
 Print Assumptions C12_judge_real_rejects_leak.
+
+Example C12_judge_real_rejects_scope :
+  judge_real ([0; 1], [4], [(4, false)], [(4, [(0, 0); (0, 1)])],
+    [(Watch 0 4 ok, RObs ErrNone [(4, Some [0])] [(4, 1)] [(4, [0; 1])]
+                         [(4, 0, 0, Some (Some (0, 0))); (4, 1, 0, Some None)] [(4, 0, Some [(0, 0); (0, 1)])])],
+    [(4, 1)]) = (false, false, true, true, true, false).
+Proof. exact judge_real_rejects_scope. Qed.
+Print Assumptions C12_judge_real_rejects_scope.
 
 (** ** The run-time monitor used on the implementation's observations accepts every behaviour of the
     model of the code as it is on start-failure-free sequences, and every behaviour of the repair
